@@ -621,7 +621,11 @@ class PyDocExtractor:
         def _get_class_header(pyclass):
             class_name = pyclass.get_name()
 
-            supers = [super.get_name() for super in pyclass.get_superclasses()]
+            supers = [
+                super.get_name()
+                for super in pyclass.get_superclasses()
+                if isinstance(super, pyobjects.AbstractClass)
+            ]
             super_classes = ", ".join(supers)
 
             return f"class {class_name}({super_classes}):\n\n"
@@ -656,14 +660,20 @@ class PyDocExtractor:
         docs = self._trim_docstring(pyfunction.get_doc(), indents=2)
         return signature + ":\n\n" + docs
 
-    def _get_super_methods(self, pyclass, name):
+    def _get_super_methods(self, pyclass, name, seen=None):
         result = []
+        seen = set() if seen is None else seen
         for super_class in pyclass.get_superclasses():
+            if not isinstance(super_class, pyobjects.AbstractClass):
+                continue
+            if id(super_class) in seen:
+                continue
+            seen.add(id(super_class))
             if name in super_class:
                 function = super_class[name].get_object()
                 if isinstance(function, pyobjects.AbstractFunction):
                     result.append(function)
-            result.extend(self._get_super_methods(super_class, name))
+            result.extend(self._get_super_methods(super_class, name, seen))
         return result
 
     def _get_function_signature(self, pyfunction, add_module=False):
